@@ -216,12 +216,27 @@ def synth_event(cat, ev):
     return {"th": 1, "m": m, "payload": p.hex()}
 
 
-class Runner:
-    """one-probe traces on ovniemu -l"""
+def fast_scratch():
+    """scratch root for the ~10^4..10^5 tiny traces: tmpfs when there is one (an
+    emulator run costs 4 ms there against 12 ms on disk), else the usual scratch"""
+    import tempfile
+    if os.path.isdir("/dev/shm") and os.access("/dev/shm", os.W_OK):
+        try:
+            return tempfile.mkdtemp(prefix="verif-c18-", dir="/dev/shm")
+        except OSError:
+            pass
+    return core.mkscratch("c18")
 
-    def __init__(self, bdir, cat, sysrec):
+
+class Runner:
+    """one-probe traces on ovniemu -l.  Every worker process rewrites the same
+    single-stream trace directory (directory creation and removal dominate
+    otherwise); only stream.obs / stream.json are read by the emulator."""
+
+    def __init__(self, bdir, cat, sysrec, root):
         self.bdir = bdir
         self.cat = cat
+        self.root = root
         self.base = {"threads": sysrec["threads"], "cpus": sysrec["cpus"], "marks": sysrec["marks"]}
 
     def system(self, mc):
@@ -229,29 +244,31 @@ class Runner:
         s["models"] = sorted({"O", mc})
         return s
 
+    def workdir(self, tag="p"):
+        d = os.path.join(self.root, "%s%d" % (tag, os.getpid()))
+        os.makedirs(d, exist_ok=True)
+        return d
+
     def run(self, mc, hist, probe_at, keep=False):
         """hist: synth entries; probe_at: index of the probe.  Returns observation dict."""
-        d = core.mkscratch("c18")
-        try:
-            td = os.path.join(d, "ovni")
-            system = self.system(mc)
-            clocks = synth.materialise(td, system, hist, models=emuhist.require_for(set(system["models"])),
-                                       meta_extra=emuhist.meta_extra_for(system))
-            r = emu.ovniemu(self.bdir, td, ("-l",), timeout=30)
-            pc = panic_clock(r.text)
-            at = clocks.index(pc) if pc in clocks else (None if pc is None else -1)
-            o = {"verdict": r.verdict, "refused_at": at, "probe_at": probe_at,
-                 "errors": r.last_errors(3)}
-            if keep:
-                o["stderr"] = r.text[-6000:]
-                o["files"] = {}
-                for sd in obs.find_streams(td):
-                    rel = os.path.relpath(sd, d)
-                    o["files"][rel + "/stream.obs"] = open(os.path.join(sd, "stream.obs"), "rb").read()
-                    o["files"][rel + "/stream.json"] = open(os.path.join(sd, "stream.json")).read()
-            return o
-        finally:
-            shutil.rmtree(d, ignore_errors=True)
+        d = self.workdir()
+        td = os.path.join(d, "ovni")
+        system = self.system(mc)
+        clocks = synth.materialise(td, system, hist, models=emuhist.require_for(set(system["models"])),
+                                   meta_extra=emuhist.meta_extra_for(system))
+        r = emu.ovniemu(self.bdir, td, ("-l",), timeout=30)
+        pc = panic_clock(r.text)
+        at = clocks.index(pc) if pc in clocks else (None if pc is None else -1)
+        o = {"verdict": r.verdict, "refused_at": at, "probe_at": probe_at,
+             "errors": r.last_errors(3)}
+        if keep:
+            o["stderr"] = r.text[-6000:]
+            o["files"] = {}
+            for sd in obs.find_streams(td):
+                rel = os.path.relpath(sd, d)
+                o["files"][rel + "/stream.obs"] = open(os.path.join(sd, "stream.obs"), "rb").read()
+                o["files"][rel + "/stream.json"] = open(os.path.join(sd, "stream.json")).read()
+        return o
 
 
 def processed(o):
@@ -316,6 +333,17 @@ def run_tlc(cfg, path, model=None, static=False, timeout=900):
     return core.tlc("Catalogue", cfg, workers=1, env=env, tags=TAGS, timeout=timeout, heap="3g")
 
 
+def assumption_failed(out, name):
+    """TLC reports a false assumption by position: is it the one called `name`?"""
+    m = re.search(r"Assumption line (\d+), col \d+ to line (\d+), col \d+ of module Catalogue is false", out)
+    if not m:
+        return False
+    src = open(os.path.join(core.SPEC, "Catalogue.tla")).read().splitlines()
+    decl = [i + 1 for i, ln in enumerate(src) if ln.startswith("ASSUME " + name + " ==")]
+    return bool(decl) and decl[0] <= int(m.group(1)) and not any(
+        ln.startswith("ASSUME") for ln in src[decl[0]:int(m.group(1))])
+
+
 def neighbours(cat, mc):
     """unlisted codes of model mc within edit distance 1 of a listed code (of any model)"""
     listed = {(m, e["c"], e["v"]) for m in cat for e in cat[m]["events"]}
@@ -337,13 +365,15 @@ def main(pid, tier):
     cat = load_catalogue()
     rng = random.Random(core.seed())
     scratch = core.mkscratch("c18in")
+    fast = fast_scratch()
     try:
-        return _main(ck, bdir, cat, rng, scratch, tier)
+        return _main(ck, bdir, cat, rng, scratch, fast, tier)
     finally:
         shutil.rmtree(scratch, ignore_errors=True)
+        shutil.rmtree(fast, ignore_errors=True)
 
 
-def _main(ck, bdir, cat, rng, scratch, tier):
+def _main(ck, bdir, cat, rng, scratch, fast, tier):
     # ---- observations and inputs handed to TLC
     er, observed, evtext = run_ovnievents(bdir)
     if er.rc != 0 or not observed:
@@ -377,7 +407,7 @@ def _main(ck, bdir, cat, rng, scratch, tier):
         ck.add_tlc(nr, "Catalogue/%s (negative: %s)" % (cfg, why))
         refuted = ((kind == "inv" and nr.violated == "ProbeConsistent")
                    or (kind == "post" and "Postcondition Post" in nr.out and "is false" in nr.out)
-                   or (kind == "assume" and "RendererSelfTest" in nr.out and "is false" in nr.out))
+                   or (kind == "assume" and assumption_failed(nr.out, "RendererSelfTest")))
         if not refuted:
             raise core.MachineryError("negative configuration %s was not refuted (%s)\n%s" % (cfg, why, nr.out[-1500:]))
     lines = {}
@@ -431,7 +461,7 @@ def _main(ck, bdir, cat, rng, scratch, tier):
     ck.phase("listing")
 
     # ---- 2. LISTED <=> HANDLED
-    run = Runner(bdir, cat, sysrec)
+    run = Runner(bdir, cat, sysrec, fast)
     wit = {}
     for w in lines.get("WIT", []):
         wit[(w["mc"], w["ev"]["c"], w["ev"]["v"])] = w
@@ -531,31 +561,28 @@ def _main(ck, bdir, cat, rng, scratch, tier):
 
     def dump(item):
         (mc, k), ds = item
-        sd = core.mkscratch("c18d")
-        try:
-            td = os.path.join(sd, "ovni")
-            hist = []
-            for d in ds:
-                e = event_of(cat, d["mc"], d["c"], d["v"])
-                p, j = payload_of(e, d["args"])
-                h = {"th": 1, "m": e["mcv"]}
-                if j is not None:
-                    h["jumbo"] = j.hex()
-                else:
-                    h["payload"] = p.hex()
-                hist.append(h)
-            system = run.system(mc)
-            clocks = synth.materialise(td, system, hist, models=emuhist.require_for(set(system["models"])))
-            rr = emu.runtool(bdir, "ovnidump", [td], timeout=60)
-            out = rr.out.decode("latin1", "replace")
-            got = {}
-            for ln in out.splitlines():
-                m = re.match(r"^\s*(-?\d+)  (...)  (\S+)  (.*)$", ln)
-                if m:
-                    got.setdefault(int(m.group(1)), []).append((m.group(2), m.group(4)))
-            return {"verdict": rr.verdict, "got": [got.get(c, []) for c in clocks], "stdout": out[-20000:], "stderr": rr.text[-3000:]}
-        finally:
-            shutil.rmtree(sd, ignore_errors=True)
+        sd = run.workdir("d")
+        td = os.path.join(sd, "ovni")
+        hist = []
+        for d in ds:
+            e = event_of(cat, d["mc"], d["c"], d["v"])
+            p, j = payload_of(e, d["args"])
+            h = {"th": 1, "m": e["mcv"]}
+            if j is not None:
+                h["jumbo"] = j.hex()
+            else:
+                h["payload"] = p.hex()
+            hist.append(h)
+        system = run.system(mc)
+        clocks = synth.materialise(td, system, hist, models=emuhist.require_for(set(system["models"])))
+        rr = emu.runtool(bdir, "ovnidump", [td], timeout=60)
+        out = rr.out.decode("latin1", "replace")
+        got = {}
+        for ln in out.splitlines():
+            m = re.match(r"^\s*(-?\d+)  (...)  (\S+)  (.*)$", ln)
+            if m:
+                got.setdefault(int(m.group(1)), []).append((m.group(2), m.group(4)))
+        return {"verdict": rr.verdict, "got": [got.get(c, []) for c in clocks], "stdout": out[-20000:], "stderr": rr.text[-3000:]}
 
     items = sorted(groups.items())
     dres = core.pmap(dump, items)
